@@ -36,6 +36,9 @@ type c17Conn struct {
 	Suite         int
 	ReuseCmd      bool
 	Seed          int64
+	// SecondOutcome scripts the reply to the second command: "" (ok), "empty" (code 0, empty body),
+	// "cc:c1" (error code, empty body), "trunc"
+	SecondOutcome string
 }
 
 var c17Cmds = []string{"devid", "chassisstatus", "guid", "authcaps", "sessioninfo", "repoinfo", "reserve", "sensorreading", "getsdr", "setpriv", "power", "sensorinfo"}
@@ -113,6 +116,11 @@ func c17Exec(run *ev.Run, c ev.Case) {
 				for _, oc := range []string{"ok", "cc:c1", "ccb:d4", "trunc", "garbage-then-ok", "busy-then-ok"} {
 					for _, inSess := range []bool{false, true} {
 						c17ConnPair(run, c17Conn{First: b.Count, Second: second, FirstOutcome: oc, InSession: inSess, Suite: (b.Count + second) % 9, ReuseCmd: b.Count == second, Seed: b.Seed})
+						if oc == "ok" || oc == "ccb:d4" {
+							for _, so := range []string{"empty", "cc:c1", "trunc"} {
+								c17ConnPair(run, c17Conn{First: b.Count, Second: second, FirstOutcome: oc, SecondOutcome: so, InSession: inSess, Suite: (b.Count + second) % 9, ReuseCmd: b.Count == second, Seed: b.Seed})
+							}
+						}
 					}
 				}
 			}
@@ -206,10 +214,28 @@ func c17ConnPair(run *ev.Run, o c17Conn) {
 	g1 := genCommand(r, c17Cmds[o.First], 0)
 	g2 := genCommand(r, c17Cmds[o.Second], 0)
 	g2f := g2 // fresh copy of the second command for the fresh connection
+	var g1f genCmd
 	{
 		r2 := rng(o.Seed+int64(o.First*16+o.Second), "c17conn"+o.FirstOutcome)
-		_ = genCommand(r2, c17Cmds[o.First], 0)
+		g1f = genCommand(r2, c17Cmds[o.First], 0)
 		g2f = genCommand(r2, c17Cmds[o.Second], 0)
+	}
+	if o.ReuseCmd && o.First == o.Second {
+		// both connections answer the second call with the same body
+		g2.OkBody, g2f.OkBody = g1.OkBody, g1.OkBody
+		if len(g2.OkBody) > 0 {
+			alt := append([]byte(nil), g2.OkBody...)
+			alt[len(alt)-1] ^= 0x01
+			if sp := c17SpecFor(c17Cmds[o.Second]); sp != nil {
+				if b, _, _ := sp.Gen(r); true {
+					alt = b
+					if g2.NetFn == 0x2c {
+						alt = append([]byte{0xdc}, b...)
+					}
+				}
+			}
+			g2.OkBody, g2f.OkBody = alt, alt
+		}
 	}
 	if g1.SerFail || g2.SerFail {
 		return
@@ -251,12 +277,34 @@ func c17ConnPair(run *ev.Run, o c17Conn) {
 		}
 		cmd := gsecond.Cmd
 		if first && o.ReuseCmd && o.First == o.Second {
-			// reuse the very command value of the first call, with the second call's request
+			// reuse the very command value of the first call (as a long-lived reader or poller does)
 			cmd = g1.Cmd
+		} else if !first && o.ReuseCmd && o.First == o.Second {
+			// the fresh connection sends the same request through a fresh command value
+			cmd = g1f.Cmd
 		}
 		var code ipmi.CompletionCode
 		var err error
-		res := se.Run(nil, gsecond.OkBody, 0, 0, 6, func(ctx context.Context) (ipmi.CompletionCode, error) {
+		var script2 []string
+		min2 := 0
+		switch o.SecondOutcome {
+		case "empty":
+			script2, min2 = []string{"trunc"}, 1 // trunc with minimum 1 = code 0 and an empty body
+			if gsecond.NetFn == 0x2c {
+				min2 = 2 // keep the group extension byte
+			}
+		case "cc:c1":
+			script2 = []string{"cc:c1"}
+		case "trunc":
+			script2 = []string{"trunc"}
+			if sp := c17SpecFor(c17Cmds[o.Second]); sp != nil {
+				min2 = sp.MinLen
+				if gsecond.NetFn == 0x2c {
+					min2++
+				}
+			}
+		}
+		res := se.Run(script2, gsecond.OkBody, min2, 0, 6, func(ctx context.Context) (ipmi.CompletionCode, error) {
 			code, err = conn.SendCommand(ctx, cmd)
 			return code, err
 		})
@@ -271,14 +319,7 @@ func c17ConnPair(run *ev.Run, o c17Conn) {
 	if !ok1 || !ok2 {
 		return
 	}
-	if o.ReuseCmd && o.First == o.Second {
-		// the reused command value carries the first call's request, so compare
-		// only when the requests are equal in content: commands without request fields
-		if g1.Cmd.Request() != nil {
-			return
-		}
-	}
-	run.Nontrivial(fmt.Sprintf("conn|%d|%d|%s|%v|%v", o.First, o.Second, o.FirstOutcome, o.InSession, o.ReuseCmd))
+	run.Nontrivial(fmt.Sprintf("conn|%d|%d|%s|%s|%v|%v", o.First, o.Second, o.FirstOutcome, o.SecondOutcome, o.InSession, o.ReuseCmd))
 	run.Event("command-pairs", 1)
 	if used != fresh {
 		run.Violation("C17:conn:result-depends-on-history", fmt.Sprintf("%s after %s (%s, in-session %v): on the used connection %q, on a fresh connection %q", c17Cmds[o.Second], c17Cmds[o.First], o.FirstOutcome, o.InSession, used, fresh), cs, nil)
